@@ -1559,6 +1559,12 @@ class Module(ABC):
         comp_states, edge_states = self._get_state_names()
         if state not in comp_states + edge_states:
             raise KeyError(f"{state} is not a recognized state in this module.")
+        # `i` is the key of the stimulus, not a state: `integrate` has nothing to read.
+        if state == "i":
+            raise KeyError(
+                "'i' cannot be recorded. Record the current of a channel or synapse "
+                "instead, e.g., 'i_HH'."
+            )
         in_view = self._nodes_in_view if state in comp_states else self._edges_in_view
 
         new_recs = pd.DataFrame(in_view, columns=["rec_index"])
